@@ -18,7 +18,7 @@ ASSUMPTIONS = ["lentil's physical constants differ from CODATA by < 1e-6 relativ
 EXHAUSTIVE = True
 PLAN = {'quick': {'gen': 4}, 'thorough': {'gen': 8, 'tests': 1, 'docs': 1}}
 REQUIRED_BUCKETS = ['wave-triple', 'flux-triple', 'spectrum.to:density', 'spectrum.to:unitless', 'spectrum.to:flux-roundtrip', 'spectrum.to:multi', 'spectrum.sample:unit', 'blackbody:converted',
-                    'planck:radiance', 'planck:exitance', 'planck:forms', 'planck:argument-types', 'planck:rayleigh-jeans', 'spectrum.to:refused-tail', 'same-numbers:mixed-units', 'wien', 'stefan-boltzmann', 'vega', 'spectrum.to:edit-in-place', 'spectrum.bin:unit', 'unit:aliases', 'spectrum:narrow-columns', 'spectrum:narrow-columns:assigned', 'spectrum:narrow-columns:resampled', 'spectrum.to:blackbody-objects']
+                    'planck:radiance', 'planck:exitance', 'planck:forms', 'planck:argument-types', 'planck:rayleigh-jeans', 'spectrum.to:refused-tail', 'same-numbers:mixed-units', 'wien', 'stefan-boltzmann', 'vega', 'spectrum.to:edit-in-place', 'spectrum.bin:unit', 'unit:aliases', 'spectrum:narrow-columns', 'spectrum:narrow-columns:assigned', 'spectrum:narrow-columns:resampled', 'spectrum.to:blackbody-objects', 'spectrum.to:sub-range-integral']
 REQUIRED_ANCHORS = ['anchor:Spectrum.to', 'anchor:planck_radiance', 'anchor:planck_exitance', 'anchor:vegaflux',
                     'anchor:Photlam.to', 'anchor:Micron.to']
 REQUIRED_ORACLES = ['wave:compose', 'wave:identity', 'wave:roundtrip', 'wave=si', 'flux:compose', 'flux:identity',
@@ -115,6 +115,21 @@ def workload(ctx, lentil):
         ctx.close('to:values', s.wave, wave * f, 1e-12, 'to|wave', 'Spectrum.to did not rescale the wavelengths', desc,
                   scale=float(np.max(wave * f)))
         ctx.check(sm.WAVE_M[s.waveunit] == sm.WAVE_M[chain[-1]], 'to:values', 'to|waveunit', 'waveunit not updated', desc)
+        if npts >= 3:
+            # the converted spectrum's own integrate() over a sub-range whose ends fall between samples (given in the new unit)
+            k0 = int(rng.integers(0, npts - 1))
+            k1 = int(rng.integers(k0, npts - 1))
+            lo0 = wave[k0] + 0.37 * (wave[k0 + 1] - wave[k0])
+            hi0 = wave[k1] + 0.61 * (wave[k1 + 1] - wave[k1])
+            ex0 = sm.integral_pl(wave, value, lo0, hi0)
+            try:
+                gotI = float(s.integrate(lo0 * f, hi0 * f, 'trapz'))
+                ctx.bucket('spectrum.to:sub-range-integral')
+                ctx.close('to:integral', np.array([gotI]), np.array([ex0 if vu is not None else ex0 * f]), 1e-10, 'to|sub-range-integral',
+                          'the integral over a sub-range (ends between samples) is not preserved (density) / scaled with the unit (unitless) by a '
+                          'wavelength-unit conversion', dict(desc, bounds=[float(lo0), float(hi0)]), scale=abs(ex0 if vu is not None else ex0 * f) + 1e-300)
+            except Exception as e:
+                ctx.check(False, 'to:integral', f'to|sub-range-integral|raises={type(e).__name__}', str(e), desc)
         if vu is None:
             ctx.close('to:values', s.value, value, 1e-13, 'to|unitless-values', 'unitless values changed under a wavelength-unit conversion',
                       desc, scale=float(np.max(value)) + 1e-300)
